@@ -395,7 +395,7 @@ Section Kernel.
         l1 <- leaf_of s k1 ;; l2 <- leaf_of s k2 ;;
         if negb (l_indep l1) && negb (l_indep l2) then
           if keqb k1 k2 && negb (eqb N r one) then Err ValueError
-          else if ltb N one (nabs N r) then Err ValueError
+          else if negb (leb N (nabs N r) one) then Err ValueError       (* if not abs(r) <= 1.0: also rejects NaN *)
           else
             let l1' := mkLeaf (l_u l1) (l_df l1) (l_indep l1) (assoc_set (l_corr l1) k2 r)
                               (l_ens l1) (l_cplx l1) (l_label l1) in
@@ -411,6 +411,10 @@ Section Kernel.
   Definition set_correlation (s : state) (r : V) (o1 o2 : ureal) : res state :=
     if eqb N r zero then Ok s
     else
+      (* if self._node is None or x._node is None: raise TypeError("... {!r} and {!r}".format(self,x)) *)
+      match unode o1, unode o2 with
+      | NoNode, _ | _, NoNode => Err TypeError
+      | _, _ =>
       d1 <- node_df s o1 ;;
       both_inf <- (if df_is_inf d1 then d2 <- node_df s o2 ;; Ok (df_is_inf d2) else Ok false) ;;
       if both_inf then set_correlation_real s r o1 o2
@@ -426,7 +430,8 @@ Section Kernel.
                  | _ => Err RuntimeError
                  end
         | _ => Err RuntimeError
-        end.
+        end
+      end.
 
   (* ---------- constructors ---------- *)
   Definition mk_constant (x : V) (label : option Z) : ureal := mkU x [] [] [] (ConstLeaf label).
